@@ -1,6 +1,8 @@
 package movegen
 
 import (
+	"github.com/frankkopp/FrankyGo/internal/config"
+	"github.com/frankkopp/FrankyGo/internal/moveslice"
 	"github.com/frankkopp/FrankyGo/internal/position"
 	. "github.com/frankkopp/FrankyGo/internal/types"
 )
@@ -96,4 +98,84 @@ func VH_C08_has_legal_move_answer() {
 	got := mg.HasLegalMove(p)
 	vxAssert(got == anyLegal, "has-legal-move.true-iff-a-tried-move-is-legal")
 	vxReach("has_legal_move_answer.end")
+}
+
+// C08 evasion clause (also C01 "check evasions"): with the side to move in check, each generator in
+// evasion mode (evasion targets computed by the real getEvasionTargets) emits an arbitrary target move
+// at most once, only if it is pseudo-legal and of the generator's class, and always if it is legal:
+// evasion generation "returns only pseudo-legal moves, none twice, and omits only illegal ones".
+// case k = (gen*2 + (mode-1))*64 + origin square of the target; gen 0 pawns, 1 king, 2 officers
+func VN_C08_evasion_generators() int { return 4 * 64 } // pawns and king; the officers' generator: VH_C08_evasion_officers_T
+func VQ_C08_evasion_generators() int { return 8 }
+func VF_C08_evasion_generators() int { return 16 } // pawn captures from the en-passant ranks are always included
+
+// the first 16 cases are the pawn non-quiet generator with the target's origin on ranks 4 and 5
+func vxEvasionCase(i int) int {
+	if i < 16 {
+		return 24 + i
+	}
+	n := 16
+	for k := 0; k < 4*64; k++ {
+		if k >= 24 && k < 40 {
+			continue
+		}
+		if n == i {
+			return k
+		}
+		n++
+	}
+	return 0
+}
+
+func VH_C08_evasion_generators(i int) { vxEvasionCheck(vxEvasionCase(i)) }
+
+// officers (knight, bishop, rook, queen): the "omits only illegal moves" query needs 1.5-2 minutes per
+// case, beyond the quick tier's per-query limit on a loaded machine: thorough tier only
+func VN_C08_evasion_officers_T() int { return 2 * 64 }
+func VH_C08_evasion_officers_T(i int) { vxEvasionCheck(4*64 + i) }
+
+func vxEvasionCheck(k int) {
+	gen, mode, from := (k>>6)>>1, GenMode((k>>6)&1+1), Square(k&63)
+	vxStub(vxGetAttacksBb, VxGeoAttacks)
+	p, s := position.VxSymPosL("", false)
+	promNQ := vxBool("UsePromNonQuiet")
+	config.Settings.Search.UsePromNonQuiet = promNQ
+	vxAssume(s.VxInCheck(s.Stm))
+	vxAssume(!s.VxInCheck(s.Stm.Flip()))
+	to := Square(vxU8("t.to"))
+	mt := MoveType(vxU8("t.type"))
+	pr := PieceType(vxU8("t.prom"))
+	vxAssume(to < 64 && mt < 4 && pr >= Knight && pr <= Queen)
+	if mt != Promotion {
+		pr = Knight
+	}
+	t := CreateMove(from, to, mt, pr)
+	cnt := 0
+	vxStub(vxPushBack, func(ms *moveslice.MoveSlice, m Move) {
+		if m.From() == from && m.To() == to && m.MoveType() == mt && m.PromotionType() == pr {
+			cnt++
+		}
+	})
+	mg := NewMoveGen()
+	ml := moveslice.NewMoveSlice(MaxMoves)
+	targets := mg.getEvasionTargets(p)
+	switch gen {
+	case 0:
+		mg.generatePawnMoves(p, mode, true, targets, ml)
+	case 1:
+		mg.generateKingMoves(p, mode, true, targets, ml)
+	case 2:
+		mg.generateMoves(p, mode, true, targets, ml)
+	}
+	if !vxSymbolic() {
+		cnt = vxCount(ml, t)
+	}
+	inClass := s.VxSpecPseudoLegal(t) && vxClass(&s, t, gen, mode, promNQ)
+	vxAssert(cnt <= 1, "evasion-generator-emits-no-move-twice")
+	vxAssert(cnt == 0 || inClass, "evasion-generator-emits-only-pseudo-legal-moves-of-its-class")
+	if inClass && s.VxSpecLegal(t) {
+		vxAssert(cnt == 1, "evasion-generator-omits-only-illegal-moves")
+		vxReach("evasion.legal-target")
+	}
+	vxReach("evasion.end")
 }
